@@ -364,15 +364,16 @@ prop("C14", [
          "connect, inside request line, inside headers, after headers, inside body) x stall {T-500, T, T+500, T+1000 ms} "
          "x scan phase {0,250 ms} x {completion after the last clock step, completion in the same wake-up as it} under "
          "virtual time in 250 ms ticks, time-out pairs with whole and fractional seconds; stall <= T => 200 and never a 408 at or before "
-         "T; stall >= T+500 ms => 408, handler not run, connection closed; the same grid for the second request of a "
-         "keep-alive connection whose first request was served 750 ms after connect. time2: two connections on the one worker, "
+         "T; stall >= T+500 ms => 408, handler not run, connection closed; the same grid for later requests of a "
+         "keep-alive connection whose earlier requests were each served 750 ms into their own clock (second after a POST with "
+         "a body / a bodyless GET / a chunked POST, third after GET + POST; thorough: fourth). time2: two connections on the one worker, "
          "each stalled at its own point (quick: after connect / inside headers / inside body; thorough: all five), the "
          "second opened 0/250/500 ms after the first, 3 time-out pairs: each connection gets its 408 within one scan "
          "period (500 ms) after its own applicable time-out counted from its own start and never earlier; executions = "
          "connections served / two-connection runs; non-trivial = multi-read deliveries and all time cases",
     assumptions=COMMON_ASSUME + ["time is virtual (clock_gettime / timerfd interposed); the 500 ms idle scan of the "
-                                 "endpoint is driven by the virtual clock", "the first and the second request of a connection are timed (start of the "
-                                 "first = accept, start of the second = completion of the first, per the property's anchor)"],
+                                 "endpoint is driven by the virtual clock", "the first to third (thorough: fourth) request of a connection are timed (start of the "
+                                 "first = accept, start of a later one = completion of its predecessor, per the property's anchor)"],
     bounds={"quick": "as listed (3-read splits for limit 64 only)", "thorough": "3-read splits for both limits"})
 
 prop("C09", [
